@@ -202,7 +202,10 @@ pub fn corpus() -> Vec<CSpace> {
         let names = super::c07::ext_members(mc);
         let radices: Vec<u64> = names.iter().map(|n| super::c07::ext_radix(mc, n)).collect();
         let n_ext = product(&radices) + 1;
-        let ids = [0usize, 1, 16, 255, 256, 500, 560, 600, 640, 700];
+        // ... and every id length 500..=560: with each extension choice some of them make the total
+        // exactly 675 / 676 / 677 bytes
+        let mut ids: Vec<usize> = vec![0usize, 1, 16, 255, 256, 600, 640, 700];
+        ids.extend(500..=560);
         let rad = [16u64, super::c07::COUNTERS.len() as u64, if mc { 1 + ids.len() as u64 } else { 1 }, n_ext];
         spaces.push(CSpace {
             name: format!("authenticator data {}", if mc { "mc" } else { "ga" }),
